@@ -373,6 +373,15 @@ def online_flat(f, sig, cuts=(), **kw):
 
 
 # -------------------------------------------------------------------------------- C18
+def window_signals(rng, vs):
+    """Unit-spaced signals whose values make the segment stacks of the sliding-window operators work: runs after an extreme
+    sample, plateaus, a value strictly between two earlier ones."""
+    from .props import c04
+    n = rng.randint(5, 14)
+    step = rng.choice([GRID, GRID, GRID * 2])        # several samples inside one window (bounds are multiples of 1/4)
+    return {v: [(step * k, x) for k, x in enumerate(c04.pattern_values(rng, n))] for v in vs}
+
+
 def law_stream(ctx):
     from .props import c18
     rng = ctx.subrng("laws-c")
@@ -384,7 +393,7 @@ def law_stream(ctx):
             if mon == "onc" and any(x[0] in ("t2", "tb2") for x in F.subformulas(lhs)):
                 continue          # dense online since: known finding F32 (C05)
             vs = sorted(set(F.variables(lhs)) | set(F.variables(rhs))) or ["x"]
-            sig = gen_signals(rng, vs)
+            sig = window_signals(rng, vs) if rng.random() < 0.4 else gen_signals(rng, vs)
             ctx.evaluations += 1
             ctx.count("law:%s/%s" % (name, mon))
             v = check_law(ctx, mon, name, lhs, rhs, sig)
@@ -394,6 +403,32 @@ def law_stream(ctx):
                 ctx.violations.append(v)
                 if len(ctx.violations) >= 3:
                     return
+
+
+def window_law_stream(ctx):
+    """The bounded dualities with wide windows directly over a variable (or a predicate), on signals with several samples inside a
+    window: the once / historically (and eventually / always) implementations are twins of each other and must stay twins."""
+    rng = ctx.subrng("laws-window")
+    for _ in range(ctx.budget(200, 1200)):
+        mon = rng.choice(["onc", "onc", "offc"])
+        x = ("v", rng.choice(VARS[:2]))
+        p = x if rng.random() < 0.6 else ("b", rng.choice(["ge", "le"]), x, ("c", rng.choice([0.0, 1.0, 2.0])))
+        a = rng.randint(0, 2)
+        b = a + rng.randint(2, 6)
+        if mon == "onc" or rng.random() < 0.5:
+            name, lhs, rhs = "not-once[a,b]", ("u", "not", ("tb1", "once", a, b, p)), ("tb1", "hist", a, b, ("u", "not", p))
+        else:
+            name, lhs, rhs = "not-ev[a,b]", ("u", "not", ("tb1", "ev", a, b, p)), ("tb1", "alw", a, b, ("u", "not", p))
+        sig = window_signals(rng, F.variables(lhs))
+        ctx.evaluations += 1
+        ctx.count("law:%s/%s/window" % (name, mon))
+        v = check_law(ctx, mon, name, lhs, rhs, sig)
+        if v is None:
+            ctx.traces_validated += 1
+        else:
+            ctx.violations.append(v)
+            if len(ctx.violations) >= 3:
+                return
 
 
 def check_law(ctx, mon, name, lhs, rhs, sig):
@@ -536,9 +571,15 @@ def replay_sign(ctx, obj):
 # -------------------------------------------------------------------------------- C16
 def extension_stream(ctx):
     rng = ctx.subrng("ext-c")
-    for _ in range(ctx.budget(80, 1500)):
+    for _ in range(ctx.budget(200, 2000)):
         g = DGen(rng, VARS[:2], DENSE_OFF - {"ufuture", "until"}, max_bound=rng.choice([2, 4]))
         f = g.formula(rng.choice([1, 2, 3]))
+        if rng.random() < 0.3:
+            # an unbounded past operator whose operand contains another one (horizon 0: nothing after t may matter)
+            inner = ("t1", rng.choice(["once", "hist"]), g.formula(rng.choice([0, 1])))
+            if rng.random() < 0.7:
+                inner = ("b", rng.choice(["and", "or"]), inner, g.formula(rng.choice([0, 1])))
+            f = ("t1", rng.choice(["once", "hist"]), inner)
         vs = F.variables(f) or ["x"]
         w1 = gen_signals(rng, vs)
         end1 = max(s[-1][0] for s in w1.values())
